@@ -809,6 +809,10 @@ func streamSplits(rep *Report, tier string, seed uint64) {
 				for c := 0; c <= len(total); c++ {
 					if cuts[c] || c == len(total) {
 						split = append(split, bop{tag: "w", p: total[last:c], n: r.Intn(2)})
+						if r.Chance(40) {
+							// a read between the pieces (and before the final one) changes nothing
+							split = append(split, bop{tag: []string{"rs", "len", "str"}[r.Intn(3)]})
+						}
 						last = c
 					}
 				}
@@ -829,6 +833,10 @@ func streamSplits(rep *Report, tier string, seed uint64) {
 				var bw, bs []bop
 				bw = append(bw, bop{tag: tag, p: total})
 				for _, o := range split[1:] {
+					if o.tag != "w" {
+						bs = append(bs, o) // an accessor between the pieces
+						continue
+					}
 					bs = append(bs, bop{tag: tag, p: o.p, n: o.n})
 				}
 				var gw, gs []byte
